@@ -118,6 +118,31 @@ def check(i, props=None, tier='quick'):
     save(i, m)
 
 
+GEN = 'gcc -g -std=gnu99 {asan}-DBINSON_PARSER_WITH_PRINT -I {{src}}/include {{demo}} {{src}}/src/binson_parser.c {{src}}/src/binson_writer.c -lpthread -lm -o {{out}}'
+CPPB = ('gcc -std=c99 -g -DBINSON_PARSER_WITH_PRINT -I {src}/include -c {src}/src/binson_parser.c -o {out}.p.o && gcc -std=c99 -g -DBINSON_PARSER_WITH_PRINT -I {src}/include -c '
+        '{src}/src/binson_writer.c -o {out}.w.o && g++ -std=c++11 -g -DBINSON_PARSER_WITH_PRINT -I {src}/include {demo} {src}/src/binson.cpp {out}.p.o {out}.w.o -o {out}')
+SCRIPT = 'printf \'#!/bin/sh\\nexec sh %s {src}\\n\' "$(dirname {demo})/demo.sh" > {out} && chmod +x {out}'
+
+
+def import_change(srcdir, i, prop, rnd, needs, mode='c'):
+    """copies change.diff / demo.* / README.md of a sub-agent's seeded_out directory into seeded/<i>/"""
+    import glob
+    t = os.path.join(SEED, i)
+    os.makedirs(t, exist_ok=True)
+    shutil.copy(os.path.join(srcdir, 'change.diff'), os.path.join(t, 'patch.diff'))
+    for f in glob.glob(os.path.join(srcdir, 'demo.*')):
+        if f.endswith(('.c', '.cpp', '.sh')):
+            shutil.copy(f, t)
+    if os.path.exists(os.path.join(srcdir, 'README.md')):
+        shutil.copy(os.path.join(srcdir, 'README.md'), os.path.join(t, 'README-from-author.md'))
+    demo = 'demo.cpp' if os.path.exists(os.path.join(t, 'demo.cpp')) else 'demo.c'
+    build = CPPB if demo.endswith('.cpp') else SCRIPT if mode == 'script' else GEN.format(asan='-fsanitize=address ' if mode == 'asan' else '')
+    json.dump(dict(property=prop, needs=needs, demo=demo, demo_build=build, round=rnd,
+                   origin='round %s: written by a sub-agent acting as an adversary of randomised testing; it saw only the property text and its own scratch worktree' % rnd),
+              open(os.path.join(t, 'meta.json'), 'w'), indent=1)
+    print('imported', i)
+
+
 def main():
     a = sys.argv[1:]
     if not a:
@@ -128,6 +153,8 @@ def main():
             confirm(i)
     elif a[0] == 'check':
         check(a[1], a[2:] or None)
+    elif a[0] == 'import':
+        import_change(a[1], a[2], a[3], a[4], a[5], a[6] if len(a) > 6 else 'c')
     elif a[0] == 'scratch':
         check_scratch(a[1], a[2:] or None)
     elif a[0] == 'all':
